@@ -165,10 +165,18 @@ class Evaluator:
                     "any", "all", "id", "bool", "frozenset", "bytes"):
                 return External("builtins." + node.id)
             raise Unsupported("table evaluator: free name %s" % node.id)
-        if isinstance(node, ast.Tuple):
-            return tuple(self.ev(e) for e in node.elts)
-        if isinstance(node, ast.List):
-            return [self.ev(e) for e in node.elts]
+        if isinstance(node, (ast.Tuple, ast.List)):
+            items = []
+            for e in node.elts:
+                if isinstance(e, ast.Starred):
+                    v = self.ev(e.value)
+                    if isinstance(v, Abs):
+                        raise Unsupported("table evaluator: *%s" %
+                                          unparse(e.value))
+                    items.extend(list(v))
+                else:
+                    items.append(self.ev(e))
+            return tuple(items) if isinstance(node, ast.Tuple) else items
         if isinstance(node, ast.Dict):
             out = {}
             for k, v in zip(node.keys, node.values):
